@@ -18,6 +18,14 @@
 //       (file_cache, imports unchanged; undeclared_fixtures changed at most at key `file`; version = one bump per
 //       definition, wrap-around included)
 //   L2  lemma_C03_* / lemma_C15_* over visit_defs / visit_uses (pure)
+// v3 (C06 / C17 / C19): the file's OWN undeclared-fixture findings are in visit_stmt's contract (prelude/visit_undecl.rs):
+//       uv_rel(old findings, final findings, file, visit_undecl(stmt, file, text, li, old defs, imports[file]))
+//   i.e. undecl_view(final) == push_undecl(undecl_view(old), file, visit_undecl(..)): exactly the scanner's scan_fn (the contract
+//   PROVED in unit undeclared_scan, `//@stub`) per fixture / test function -- a fixture AFTER its own definition was recorded,
+//   a later class member against the definitions the earlier members recorded, sync and async alike -- pushed in order;
+//   visit_assignment_fixture / visit_pytestmark_assignment leave undeclared_fixtures alone (new ensures).  The two scan
+//   results are opaque spec fns (fix_scan / test_scan) with one lemma per scan site, so visit_stmt's big query never
+//   unfolds the scanner's recursive specification (8 s instead of 30 s).
 use rustpython_parser::ast::{Expr, Stmt, Keyword, Identifier, Constant, ExceptHandler, ExprCall, Alias, Arguments, ArgWithDefault};
 use rustpython_parser::text_size::TextRange;
 verus! {
